@@ -62,6 +62,9 @@ type Prog struct {
 	A       *Anchors
 	Overlay map[string][]byte
 	errEng  *errEngine
+	gram    *Grammar
+	gramErr error
+	exhEng  *exh
 }
 
 // applyOverlay builds a go/packages overlay from substitutions. It fails if a
